@@ -5,7 +5,7 @@ use crate::rng::Rng;
 pub const ALPHABET: &[&str] = &[
     "@", "#", "~", "{", "}", "(", ")", "%", "|", "=", "-", "--", ">", ">>", ":", "/", ".", "*", "&", "?", "+", "\\",
     "[-", "-]", "[", "]", ",", "a", "word", "1", "0", "01", "é", "😀", " ", "  ", "\t", "\n", "\n\n", "\r\n", "---",
-    "kg", "min", "C", "[mode]", "\u{00A0}", "\u{000B}", "«", "—", "¡",
+    "kg", "min", "C", "[mode]", "\u{00A0}", "\u{000B}", "«", "—", "¡", "\u{2212}",
 ];
 
 /// characters that look innocent but are special for some routine (BOM, zero-width and Unicode spaces,
@@ -28,7 +28,7 @@ pub fn nth_string(len: usize, mut idx: usize) -> String {
 
 const WORDS: &[&str] = &["flour", "salt", "olive", "oil", "Crème", "ñame", "pan", "egg", "water", "mix", "the", "and", "Bake", "until", "golden", "sea", "1st", "2", "x", "😀", "añejo", "pot", "de", "é"];
 const UNITS: &[&str] = &["g", "kg", "ml", "l", "cup", "cups", "tsp", "tbsp", "min", "minutes", "h", "°C", "C", "F", "pinch", "clove", "oz", "lb", "s"];
-const NUMS: &[&str] = &["1", "2", "200", "0.5", "1.5", ".5", "1/2", "1 1/2", "3 / 4", "2-3", "1.5 - 2", "01", "1/0", "0", "10", "4294967296", "1 / 2", "1e3", "1.", "1.2.3"];
+const NUMS: &[&str] = &["1", "2", "200", "0.5", "1.5", ".5", "1/2", "1 1/2", "3 / 4", "2-3", "1.5 - 2", "01", "1/0", "0", "10", "4294967296", "1 / 2", "1e3", "1.", "1.2.3", "1/0-2", "1-1/0", "4-2"];
 const SPACES: &[&str] = &["", "", " ", " ", "  ", "\t", "\u{00A0}"];
 const COMMENTS: &[&str] = &["[- c -]", "[-é-]", "[--]", "[- x", "-- end", "--é"];
 
@@ -104,7 +104,7 @@ pub fn step(rng: &mut Rng) -> String {
         match rng.below(10) {
             0..=3 => s.push_str(&component(rng)),
             4 => s.push_str(rng.pick_str(COMMENTS)),
-            5 => { s.push_str(rng.pick_str(&["350 °F", "2 cups", "10 min", "-5 C", "1.5kg", "3 eggs", "\\@home", "a\\", "50% done"])); }
+            5 => { s.push_str(rng.pick_str(&["350 °F", "2 cups", "10 min", "-5 C", "1.5kg", "3 eggs", "\\@home", "a\\", "50% done", "\u{2212}18 °C", "2\u{00A0}œufs", "1\u{202F}000 g", "at 180 C", "3\u{3000}個"])); }
             _ => s.push_str(&word(rng)),
         }
     }
